@@ -5,6 +5,7 @@ import (
 	"go/constant"
 	"go/token"
 	"math/big"
+	"strconv"
 	"strings"
 
 	"golang.org/x/tools/go/ssa"
@@ -467,10 +468,42 @@ func ruleKeys(e *Env, rule string, strict bool) {
 				continue
 			}
 			s, ok := flow.ConstString(bo.Y)
+			keyExpr := bo.X
 			if !ok {
-				continue
+				// the key classified through a literal map (`switch kinds[lower(key)] { case kindValue: … }`): the arm for
+				// kind K is the arm for the one key the map sends to K
+				lk, isLk := bo.X.(*ssa.Lookup)
+				kc, isK := bo.Y.(*ssa.Const)
+				if !isLk || lk.CommaOk || !isK || kc.Value == nil {
+					continue
+				}
+				ld, isLd := lk.X.(*ssa.UnOp)
+				if !isLd {
+					continue
+				}
+				g, isG := ld.X.(*ssa.Global)
+				if !isG || g.Pkg == nil {
+					continue
+				}
+				mv, found := e.globalTables()(g.Pkg.Pkg.Name() + "." + g.Name() + "#map")
+				m, isMap := mv.(*pred.MapV)
+				if !found || !isMap {
+					continue
+				}
+				var pre []string
+				for k, v := range m.Entries {
+					if c, isC := v.(pred.Const); isC && c.V != nil && constant.Compare(c.V, token.EQL, kc.Value) {
+						if uq, err := strconv.Unquote(k); err == nil {
+							pre = append(pre, uq)
+						}
+					}
+				}
+				if len(pre) != 1 {
+					continue // no key, or several keys share the arm: not the arm of one marshal key
+				}
+				s, keyExpr = pre[0], lk.Index
 			}
-			call, ok := bo.X.(*ssa.Call)
+			call, ok := keyExpr.(*ssa.Call)
 			switch {
 			case !ok || call.Call.StaticCallee() == nil:
 				lowered = false
